@@ -2,7 +2,6 @@
    ratelimit.Clock, scripted base recorder); bucket parameters read from the real bucket. *)
 From Coq Require Import List ZArith Bool Arith.
 From TR Require Export model.Throttle model.ThrottleSpec corr.Common.
-From TR Require Import model.ThrExt.
 Import ListNotations.
 Open Scope Z_scope.
 
@@ -29,18 +28,16 @@ Definition spec05 (c : case) (tr : list (list tout)) : bool :=
 
 Definition spec06 (c : case) (tr : list (list tout)) : bool :=
   let st := combine (map fst (c_steps c)) tr in
-  negb (c_conforming c) || negb (conforming st) || negb (monotone (map fst (c_steps c))) || S06 (c_minlen c) st.
-
-(* the translated throttled_recorder.go run on the same schedule *)
-Definition source_trace (c : case) : list (list tout) :=
-  src_thrun (c_cap c) (c_q c) (c_fi c) (c_minlen c) (c_faults c) (map fst (c_steps c)).
+  (* the restart guard is the configured minimum clip, (min-secs + preview-secs) * fps frames *)
+  (c_minlen c =? c_minframes c) &&
+  (negb (c_conforming c) || negb (conforming st) || negb (monotone (map fst (c_steps c))) || S06 (c_minlen c) st).
 
 Definition check05 (c : case) : Z :=
-  let m := model_trace c in let i := map snd (c_steps c) in let s := source_trace c in
-  code (trace_eqb m i) (spec05 c i) true + code_src (trace_eqb s m) (spec05 c s).
+  let m := model_trace c in let i := map snd (c_steps c) in
+  code (trace_eqb m i) (spec05 c i) true.
 Definition check06 (c : case) : Z :=
-  let m := model_trace c in let i := map snd (c_steps c) in let s := source_trace c in
-  code (trace_eqb m i) (spec06 c i) (spec06 c m) + code_src (trace_eqb s m) (spec06 c s).
+  let m := model_trace c in let i := map snd (c_steps c) in
+  code (trace_eqb m i) (spec06 c i) (spec06 c m).
 
 Definition explain (c : case) :=
   let m := model_trace c in
